@@ -637,6 +637,9 @@ func (h *hist) genTx(pp posTypes.Params, govOwner map[string]key, daoOwner key, 
 		t.fee = govTypes.GovFeeMap[govTypes.MsgDAOTransferName]
 	default: // change param
 		pc := paramPool[r.Intn(len(paramPool))]
+		if r.Chance(1, 5) {
+			pc = paramPool[1] // pos/StakeMinimum: raising it strands validators below the new minimum
+		}
 		// the owner as of the last commit (inside a block this may already be the PREVIOUS owner: such a
 		// message must be refused)
 		from := h.keyOf(h.app.GK.GetACL(sdk.NewContext(h.app.Store(), abci.Header{}, false, nil)).GetOwner(pc.key), govOwner[pc.key])
@@ -644,8 +647,11 @@ func (h *hist) genTx(pp posTypes.Params, govOwner map[string]key, daoOwner key, 
 			from = k
 		}
 		val, model := pc.gen(h)
-		if r.Chance(1, 10) { // a key nobody owns (not in the ACL): refused from everybody
+		if r.Chance(1, 8) { // a key nobody owns (not in the ACL): refused from everybody, the owners of OTHER parameters included
 			from = k
+			if r.Chance(2, 3) {
+				from = h.keys[r.Intn(3)]
+			}
 			pc.key = []string{"gov/acl/x", "pos/MaxValidators/x", "pos/Nope", "auth/acl"}[r.Intn(4)]
 			grab := govTypes.ACL{}
 			for _, p := range allParamNames {
@@ -1322,6 +1328,22 @@ func runHistory(r *rng.R, id, maxBlocks int, wo, wi *bufio.Writer) {
 				}
 			}
 			h.handover = nil
+			if res.Code == 0 && strings.Contains(t.spec, ":"+hx([]byte("pos/StakeMinimum"))+":") {
+				// the minimum has just changed: a staked validator that is now below it asks to begin unstaking (must be
+				// refused without a trace, or handled, but never half-way)
+				nm := h.app.PK.GetParams(sdk.NewContext(h.app.Store(), abci.Header{}, false, nil)).StakeMinimum
+				for _, c := range h.keys {
+					if v, ok := h.validator(c.addr); ok && v.status == 2 && v.tokens < nm && len(c.subs) == 0 {
+						cc := c
+						ft := txSpec{signer: cc, attached: &cc, wrongSub: -1}
+						ft.msg = posTypes.MsgBeginUnstake{Address: c.addr}
+						ft.spec = "unstake:" + hx(c.addr)
+						h.forced = append(h.forced, ft)
+						stats["tx/unstake-below-a-raised-minimum"]++
+						break
+					}
+				}
+			}
 			h.emit(op, rs)
 		}
 		// ---- end block / commit
